@@ -218,7 +218,16 @@ func (vm *VM) Run(program *Program, env interface{}) (out interface{}, err error
 			a := vm.pop()
 			min := toInt(a)
 			max := toInt(b)
-			size := max - min + 1
+			// A range whose end precedes its start is empty. Otherwise its size is
+			// max-min+1, which is computed unsigned as it may not fit into an int.
+			size := 0
+			if max >= min {
+				d := uint64(max) - uint64(min)
+				if d >= uint64(vm.limit) {
+					panic("memory budget exceeded")
+				}
+				size = int(d) + 1
+			}
 			if vm.memory+size >= vm.limit {
 				panic("memory budget exceeded")
 			}
